@@ -44,7 +44,9 @@ EDITS = [
         "        self.actions.append(('retired', bib))\n")]),
     ('m-hj-equal-bar-accepted', ['C02'], 'violation', [(HJ,
         "(prev_height >= new_height)", "(prev_height > new_height)")]),
-    ('m-hj-finished-not-gated', ['C02'], 'violation', [(HJ,
+    # equivalent mutant (kept as a control): in 'finished' every athlete is eliminated or has cleared the
+    # current height and the bar cannot move any more, so Jumper._set_jump_array refuses the call anyway
+    ('nc-hj-finished-not-gated-equivalent', ['C02'], 'silent', [(HJ,
         "            elif state == 'finished':\n                raise RuleViolation('The competition has finished and %s is not allowed!' % label)\n",
         "            elif state == 'finished':\n                pass\n")]),
     ('m-hj-countback-components-swapped', ['C03'], 'violation', [(HJ,
